@@ -490,7 +490,7 @@ func wantIsolation() bool {
 
 type childOut struct {
 	Verdict *vf.Verdict `json:"verdict"`
-	Rec     memRec      `json:"rec"`
+	Rec     *memRec     `json:"rec"`
 }
 
 var childRunners = map[string]func(raw json.RawMessage, rec recorder) *vf.Verdict{}
@@ -513,8 +513,8 @@ func isolate(unit string, c any, rec recorder) *vf.Verdict {
 	cmd.Env = append(os.Environ(), "VERIF_C18_CHILD="+unit, "VERIF_C18_CASE="+cf)
 	out, runErr := cmd.CombinedOutput()
 	if ob, err := os.ReadFile(cf + ".out"); err == nil {
-		var co childOut
-		if json.Unmarshal(ob, &co) == nil {
+		co := childOut{Rec: &memRec{}}
+		if json.Unmarshal(ob, &co) == nil && co.Rec != nil {
 			for _, l := range co.Rec.Classes {
 				rec.Class(l)
 			}
@@ -571,9 +571,9 @@ func TestChild(t *testing.T) {
 	if run == nil {
 		t.Fatalf("unknown unit %q", unit)
 	}
-	var co childOut
-	co.Verdict = run(raw, &co.Rec)
-	b, _ := json.Marshal(co)
+	co := childOut{Rec: &memRec{}}
+	co.Verdict = run(raw, co.Rec)
+	b, _ := json.Marshal(&co)
 	if err := os.WriteFile(cf+".out", b, 0o644); err != nil {
 		t.Fatalf("write result: %v", err)
 	}
